@@ -147,6 +147,8 @@ pub fn model_map(reference: &[Vec<u8>], dicts: &[SampleDict], k: usize, rc: bool
     for (_, _, a, _) in &refk {
         *cnt.entry(a).or_insert(0) += 1;
     }
+    // which reference windows have a split k-mer that occurs more than once (looked up once, used for every sample)
+    let repeated: Vec<bool> = if repeat_mask { refk.iter().map(|(_, _, a, _)| cnt[a] > 1).collect() } else { Vec::new() };
     let mut outs = Vec::new();
     for d in dicts {
         let mut out: Vec<Vec<u8>> = reference.iter().map(|c| vec![b'-'; c.len()]).collect();
@@ -174,8 +176,8 @@ pub fn model_map(reference: &[Vec<u8>], dicts: &[SampleDict], k: usize, rc: bool
             }
         }
         if repeat_mask {
-            for (ci, p, arms, _) in &refk {
-                if cnt[arms] > 1 {
+            for (ri, (ci, p, _arms, _)) in refk.iter().enumerate() {
+                if repeated[ri] {
                     for q in (p - h)..=(p + h) {
                         if out[*ci][q] != b'-' {
                             out[*ci][q] = b'N';
@@ -223,6 +225,8 @@ pub fn run_map(ctx: &Ctx, dir: &std::path::Path, c: &Case, m: &Mat, vcf: bool) -
     // alignment output does not name contigs: there the records of a reference may share the first word of
     // their headers (">contig 1", ">contig 2"); every record still counts
     let headers: Vec<String> = if !vcf && (c.k / 2 + m.reference.len()) % 4 == 0 { (0..names.len()).map(|i| format!("contig {i} of {}", names.len())).collect() } else { headers };
+    // a blank or a tab between '>' and the name in some headers (hand-edited files): the name is the first word
+    let headers: Vec<String> = headers.into_iter().enumerate().map(|(i, h)| if (i + c.k) % 5 == 0 { format!("{}{h}", if i % 2 == 0 { " " } else { "\t" }) } else { h }).collect();
     cli::write_fasta(&dir.join("ref.fa"), &headers, &m.reference, c.width.map(|w| w as usize));
     let one_step = c.one_step && c.k == 17 && c.rc && m.samples.len() >= 2;
     let mut args: Vec<String> = vec!["map".into(), "ref.fa".into()];
@@ -489,6 +493,69 @@ fn check_large(lc: &LargeCase, ctx: &Ctx) -> Outcome {
     }
 }
 
+// ---- one contig of more than 2^20 bases; every coordinate around base 2^20 is the site of a substitution in some sample
+
+#[derive(Clone, Debug, Serialize, Deserialize)]
+pub struct HugeCase {
+    pub seed: u64,
+    pub k_sel: u8,
+    pub extra: u16,
+    pub rc: bool,
+    pub repeat_mask: bool,
+}
+
+fn huge_strategy() -> BoxedStrategy<HugeCase> {
+    (any::<u64>(), 0u8..4, 0u16..3000, any::<bool>(), prop::bool::weighted(0.3))
+        .prop_map(|(seed, k_sel, extra, rc, repeat_mask)| HugeCase { seed, k_sel, extra, rc, repeat_mask })
+        .boxed()
+}
+
+fn huge_materialise(c: &HugeCase) -> (Case, Mat) {
+    let k = [15usize, 17, 31, 33][c.k_sel as usize % 4];
+    const B: usize = 1 << 20;
+    let mut x = c.seed | 1;
+    let reference: Vec<u8> = (0..B + 300 + c.extra as usize).map(|_| { x = crate::engine::splitmix64(x); model::BASES[(x >> 37) as usize & 3] }).collect();
+    // k small samples (the region around base 2^20 only), sample j with substitutions exactly k apart at phase j:
+    // every coordinate from 2^20 - 2k to 2^20 + 3k is the middle of a matched window of exactly one sample
+    let (lo, hi) = (B - 3 * k - 50, B + 4 * k + 50);
+    let mut samples = Vec::new();
+    for j in 0..k {
+        let mut s = reference[lo..hi].to_vec();
+        for m in 0..5 {
+            let p = B - 2 * k + j + m * k - lo;
+            s[p] = model::comp(s[p]);
+        }
+        samples.push((format!("h{j}"), vec![s]));
+    }
+    let case = Case { k, rc: c.rc, contigs: vec![], samples: vec![], ambig_mask: false, repeat_mask: c.repeat_mask, width: Some(60), self_map: false, one_step: false };
+    (case, Mat { reference: vec![reference], samples })
+}
+
+fn check_huge(hc: &HugeCase, ctx: &Ctx) -> Outcome {
+    let (c, m) = huge_materialise(hc);
+    let e = expect(&c, &m);
+    let dir = ctx.case_dir();
+    let r: Result<(), Outcome> = (|| {
+        let run = run_map(ctx, &dir, &c, &m, false)?;
+        if run.refused {
+            return Err(Outcome::Fail(format!("map of a {}-base contig failed: {}", m.reference[0].len(), run.err)));
+        }
+        for (i, (g, x)) in run.seqs.iter().zip(e.seqs.iter()).enumerate() {
+            if g != x {
+                let pos = g.iter().zip(x.iter()).position(|(a, b)| a != b).unwrap_or(g.len().min(x.len()));
+                return Err(Outcome::Fail(format!("sample {i}: output (length {}) differs from the model (length {}) first at position {pos} (2^20 {:+}): got {:?} expected {:?}", g.len(), x.len(), pos as i64 - (1i64 << 20), lossy(&g[pos.saturating_sub(10)..(pos + 10).min(g.len())]), lossy(&x[pos.saturating_sub(10)..(pos + 10).min(x.len())]))));
+            }
+        }
+        Ok(())
+    })();
+    ctx.done(&dir);
+    match r {
+        Err(Outcome::Fail(msg)) => Outcome::Fail(format!("k={} rc={} seed={} contig length={} repeat_mask={}: {msg}", c.k, c.rc, hc.seed, m.reference[0].len(), c.repeat_mask)),
+        Err(o) => o,
+        Ok(()) => pass(true, key_of(&(c.k, c.rc, hc.seed, hc.extra, hc.repeat_mask)), vec![if c.k >= 33 { "128bit" } else { "64bit" }]),
+    }
+}
+
 // ---- AlnWriter alone, in-process
 
 #[derive(Clone, Debug, Serialize, Deserialize)]
@@ -594,6 +661,7 @@ fn stages(tier: Tier) -> Vec<Box<dyn Stage>> {
     vec![
         gen_stage_show("map", RULE, tier.pick(4000, 48_000), 250, case_strategy, check, show),
         gen_stage_show("large_reference", "generated: a random first contig of 65300-67300 bases plus a second contig of 20-600 bases, or (25%) two real contigs around 65536-65542 contigs of 1-6 bases (content a pure function of content_seed), two samples carrying 1-11 substitutions (half of them placed around concatenated position 65536 and in the second contig), k in {15,17,31,33}, masks; output == model for every sample. Every case non-trivial.", tier.pick(16, 320), 10, large_strategy, check_large, |c| json!({"k_index": c.k_sel % 4, "first_contig": 65_300 + c.extra as usize, "second_contig": c.second_len, "snps": c.snps.len()})),
+        gen_stage_show("huge_contig", "generated: one random contig of 2^20 + 300..3300 bases (content a pure function of the seed); k samples that hold the region around base 2^20 only, sample j with substitutions exactly k apart at phase j, so that every coordinate from 2^20 - 2k to 2^20 + 3k is the middle of a matched window of exactly one sample; k in {15,17,31,33}, both strand modes, with and without --repeat-mask; output == model for every sample. Every case non-trivial.", tier.pick(3, 30), 2, huge_strategy, check_huge, |c| json!({"seed": c.seed, "k_index": c.k_sel % 4, "contig_length": (1usize << 20) + 300 + c.extra as usize, "rc": c.rc, "repeat_mask": c.repeat_mask})),
         gen_stage_show("alnwriter", "generated: AlnWriter alone (in-process) on 1-3 contigs with an increasing list of (contig, position, symbol) matches incl. ambiguity codes, arbitrary repeat coordinates and the ambiguity mask; output == union-of-windows model. Non-trivial: >=2 matches.", tier.pick(40_000, 800_000), 1500, writer_strategy, check_writer, |c| json!({"k": c.k, "contig_lengths": c.contigs.iter().map(|x| x.len()).collect::<Vec<_>>(), "matches": c.matches.len(), "repeats": c.repeats.len()})),
     ]
 }
